@@ -348,8 +348,9 @@ def guard_eval(repo: Repo) -> RuleRun:
     for qn, exc in (("construct.shapes.cylinder.Cylinder.chain", "CylinderCreationError"), ("construct.shapes.frustum.Frustum.chain", "FrustumCreationError"), ("construct.shapes.rings.ExtrudedRing.chain", "ExtrudedRingCreationError")):
         fn = repo.func(qn)
         for length, bad in ((-1, True), (-0.001, True), (0, False), (2, False)):
-            args = [Sym("cls"), Sym("source"), length] + ([1] if "Frustum" in qn else [])
-            expect(fn, _try(Evaluator(repo=repo, module=fn.module), fn, args), bad, f"length={length}", (exc,))
+            for start_face in (False, True):
+                args = [Sym("cls"), Sym("source"), length] + ([1] if "Frustum" in qn else [])
+                expect(fn, _try(Evaluator(repo=repo, module=fn.module), fn, args, {"start_face": start_face}), bad, f"length={length}, start_face={start_face}", (exc,))
     ctr = repo.func("construct.shapes.rings.ExtrudedRing.contract")
     for rad, bad in ((0, True), (-1, True)):
         expect(ctr, _try(Evaluator(repo=repo, module=ctr.module), ctr, [Sym("cls"), Sym("source"), rad]), bad, f"inner_radius={rad}", ("ExtrudedRingCreationError",))
